@@ -19,6 +19,8 @@ use serde::{Deserialize, Serialize};
 pub enum HCase {
     Seq(History),
     Multi(MultiCase),
+    /// C06b scheduled program (C06 only).
+    Drop(super::c06b::DropCase),
 }
 
 fn with_multi(seq: BoxedStrategy<History>, weight: u32) -> BoxedStrategy<HCase> {
@@ -63,6 +65,7 @@ impl Property for C01 {
         let case = match case {
             HCase::Seq(h) => h,
             HCase::Multi(m) => return run_multi(m, ctx, "C01", &["dropped-between-two-completions", "dropped-after-some-results"]),
+            HCase::Drop(_) => return,
         };
         let feats = interp::execute(case, Oracles { c01: true, ..Oracles::default() }, ctx);
         ctx.nontrivial = feats.contains("dropped-while-running") && feats.iter().any(|f| f.starts_with("k:") && f != "k:truncate") || feats.contains("restart");
@@ -91,6 +94,7 @@ impl Property for C02 {
         let case = match case {
             HCase::Seq(h) => h,
             HCase::Multi(m) => return run_multi(m, ctx, "C02", &[">=3-results-queued", ">=3-results-in-one-poll", "zc-resolved"]),
+            HCase::Drop(_) => return,
         };
         let feats = interp::execute(case, Oracles { c02: true, ..Oracles::default() }, ctx);
         ctx.nontrivial = feats.contains("out-of-order") || feats.contains("multishot-split");
@@ -158,7 +162,12 @@ impl Property for C06 {
     const ID: &'static str = "C06";
     type Case = HCase;
     fn strategy(_tier: Tier) -> BoxedStrategy<HCase> {
-        with_multi((strat::ring_cfg(3), proptest::collection::vec(strat::step(strat::kind_basic().boxed(), 1, 6), 0..70)).prop_map(|(cfg, steps)| History { cfg, steps, teardown: None }).boxed(), 1)
+        {
+            let base = with_multi((strat::ring_cfg(3), proptest::collection::vec(strat::step(strat::kind_basic().boxed(), 1, 6), 0..70)).prop_map(|(cfg, steps)| History { cfg, steps, teardown: None }).boxed(), 1);
+            let sched = (1u8..=3, proptest::collection::vec(1u8..=2, 1..=2), 1u8..=3, proptest::collection::vec(proptest::bool::weighted(0.8), 3), proptest::bool::weighted(0.25), proptest::collection::vec(any::<u16>(), 0..80))
+                .prop_map(|(sq_log2, droppers, polls, complete_before_poll, full_queue, drop_tape)| HCase::Drop(super::c06b::DropCase { sq_log2, droppers, polls, complete_before_poll, full_queue, drop_tape }));
+            prop_oneof![4 => base, 1 => sched].boxed()
+        }
     }
     fn cases(tier: Tier) -> u32 {
         tier.pick(6_000, 400_000)
@@ -167,6 +176,16 @@ impl Property for C06 {
         let case = match case {
             HCase::Seq(h) => h,
             HCase::Multi(m) => return run_multi(m, ctx, "C06", &["dropped-between-two-completions", "dropped-after-some-results", "completed-after-drop"]),
+            HCase::Drop(d) => {
+                let classes = super::c06b::run(d, ctx);
+                ctx.class("scheduled");
+                for c in &classes {
+                    ctx.class(c);
+                }
+                ctx.nontrivial = classes.contains(&"switch-inside-a10");
+                ctx.fingerprint = format!("sched-drop|{}|{:x}", classes.join("|"), crate::common::fnv(&format!("{d:?}")) & 0xffff);
+                return;
+            }
         };
         let feats = interp::execute(case, Oracles { c06: true, ..Oracles::default() }, ctx);
         ctx.nontrivial = feats.contains("dropped-while-running") && (feats.contains("completed-after-drop") || feats.contains("drop-with-full-queue") || feats.contains("cancel:Already") || feats.contains("cancel:NotFound"));
